@@ -88,13 +88,13 @@ def qname_errors(ns, qname, is_attr):
 
 class Node(object):
     __slots__ = ('id', 't', 'doc', 'parent', 'children', 'name', 'ns', 'local', 'prefix', 'value', 'attrs', 'owner', 'specified',
-                 'readonly', 'dead', 'pub', 'sys', 'notation', 'entities', 'notations', 'isid')
+                 'readonly', 'dead', 'pub', 'sys', 'notation', 'entities', 'notations', 'isid', 'cloned')
     def __init__(self, t, doc):
         self.id = -1; self.t = t; self.doc = doc; self.parent = None; self.children = []
         self.name = None; self.ns = None; self.local = None; self.prefix = None; self.value = None
         self.attrs = [] if t == EL else None; self.owner = None; self.specified = True
         self.readonly = False; self.dead = False; self.pub = None; self.sys = None; self.notation = None
-        self.entities = [] if t == DT else None; self.notations = [] if t == DT else None; self.isid = False
+        self.entities = [] if t == DT else None; self.notations = [] if t == DT else None; self.isid = False; self.cloned = False
     def __repr__(self): return 'N%d<%s %s>' % (self.id, KIND[self.t], self.name if self.name is not None else (self.value or '')[:10])
 
 
@@ -147,6 +147,8 @@ class World(object):
     def __init__(self):
         self.nodes = []; self.docs = []
         self.defaults = {}      # doc id -> {element name: [(attr name, value)]}  (from the DTD the driver wrote itself)
+        self.captured = {}      # element -> DTD defaults known to it (creation time)
+        self.gray = None
         self.views = []         # C14
         self.listeners = []     # C14 view objects that receive mutation notifications (ranges, iterators)
 
@@ -242,7 +244,10 @@ class World(object):
             stack.append(n); byid[nid] = n
         w.nodes = [byid[i] for i in range(len(byid))]
         w.docs = [n for n in w.nodes if n.t == DOC]
-        if defaults0: w.defaults[w.docs[0].id] = defaults0
+        if defaults0:
+            w.defaults[w.docs[0].id] = defaults0
+            for n in w.nodes:
+                if n.t == EL and n.doc is w.docs[0]: w.captured[n] = list(defaults0.get(n.name, []))
         return w
 
     # ---- helpers ----------------------------------------------------------------------------------
@@ -255,12 +260,14 @@ class World(object):
             if c.t == DT: return c
         return None
     def default_attrs(self, doc, ename):
+        if self.doctype(doc) is None: return []       # the defaults live in the DocumentType node
         return self.defaults.get(doc.id, {}).get(ename, [])
     def make_default_attr(self, el, aname, value):
         # the driver's DTDs declare un-prefixed defaults only; the parser runs with namespaces on, so they are NS nodes
         a = self.new(AT, el.doc, name=aname, ns=None, local=aname, prefix=None, value=value, specified=False)
         return a
     def add_defaults(self, el):
+        self.captured[el] = list(self.default_attrs(el.doc, el.name))     # an element knows the defaults of its creation time
         for aname, value in self.default_attrs(el.doc, el.name):
             if not any(a.name == aname for a in el.attrs):
                 a = self.make_default_attr(el, aname, value); a.owner = el; a.readonly = el.readonly; el.attrs.append(a)
@@ -294,8 +301,8 @@ class World(object):
         codes, prefix, local = qname_errors(ns, qname, False)
         if codes: return Res.err(codes)
         e = self.new(EL, doc, name=qname, ns=ns, local=local, prefix=prefix)
-        self.add_defaults(e)
-        return Res.ok(e)
+        # createElementNS: the specification does not promise DTD default attributes (createElement does); Xerces adds none
+        return Res.ok(e, 'createElementNS of an element type with DTD default attributes' if self.default_attrs(doc, qname) else None)
     def createTextNode(self, doc, data): return Res.ok(self.new(TX, doc, value=data))
     def createComment(self, doc, data): return Res.ok(self.new(CM, doc, value=data))
     def createCDATASection(self, doc, data): return Res.ok(self.new(CD, doc, value=data))
@@ -429,16 +436,24 @@ class World(object):
     def _find_attr_ns(self, e, ns, local):
         return [a for a in e.attrs if a.local is not None and a.ns == ns and a.local == local]
     def _l1_clash(self, e, ns, local, qname=None):
-        """NS-aware lookup that could hit a DOM Level 1 attribute (localName null): left open by the specification"""
-        return any(a.local is None and (a.name == local or a.name == qname) for a in e.attrs)
+        """NS-aware lookup on an element whose attribute set was built by mixing DOM Level 1 and namespace-aware
+        methods (a Level 1 attribute of that name, or several attributes of that expanded name): left open by the specification"""
+        return any(a.local is None and (a.name == local or a.name == qname) for a in e.attrs) or len(self._find_attr_ns(e, ns, local)) > 1 \
+            or (qname is not None and any(a.name == qname and (a.ns != ns or a.local != local) for a in e.attrs))
+    def _name_clash(self, e, name):
+        return len(self._find_attr(e, name)) > 1
     def _set_value(self, a, value):
         a.value = value if value is not None else ''; a.specified = True
     def _remove_attr(self, e, a, restore_default=True):
         e.attrs.remove(a); a.owner = None
+        self.gray = None
         if restore_default:
-            for aname, value in self.default_attrs(e.doc, e.name):
+            for aname, value in self.captured.get(e, []):
                 if aname == a.name and not any(x.name == aname for x in e.attrs):
                     d = self.make_default_attr(e, aname, value); d.owner = e; e.attrs.append(d)
+                    if self.doctype(e.doc) is None: self.gray = 'default attribute restored although the document has lost its doctype'
+            if self.captured.get(e, []) != self.default_attrs(e.doc, e.name) and any(an == a.name for an, _ in self.default_attrs(e.doc, e.name) + self.captured.get(e, [])):
+                self.gray = 'DTD defaults of the element differ from those known when it was created'
 
     def setAttribute(self, e, name, value):
         codes = set()
@@ -472,6 +487,7 @@ class World(object):
         r = Res.ok(None, 'two attributes share the nodeName' if len(found) > 1 else None)
         if found:
             self._remove_attr(e, found[0]); r.killed.append(found[0])    # Xerces releases the removed Attr (documented memory model)
+            r.unspec = r.unspec or self.gray
         return r
     def removeAttributeNS(self, e, ns, local):
         if e.readonly: return Res.err({NO_MOD})
@@ -479,6 +495,7 @@ class World(object):
         r = Res.ok(None, 'namespace-aware lookup on an element carrying a DOM Level 1 attribute of that name' if self._l1_clash(e, ns, local) else None)
         if found:
             self._remove_attr(e, found[0]); r.killed.append(found[0])
+            r.unspec = r.unspec or self.gray
         return r
     def _set_attr_node(self, e, a, nsaware):
         codes = set()
@@ -492,7 +509,7 @@ class World(object):
         unspec = None
         if nsaware:
             if a.local is None: unspec = 'setAttributeNodeNS with a DOM Level 1 attribute'
-            elif self._l1_clash(e, a.ns, a.local): unspec = 'namespace-aware lookup on an element carrying a DOM Level 1 attribute of that name'
+            elif self._l1_clash(e, a.ns, a.local, a.name): unspec = 'namespace-aware lookup on an element carrying a DOM Level 1 attribute of that name'
             found = self._find_attr_ns(e, a.ns, a.local) if a.local is not None else self._find_attr(e, a.name)
         else:
             found = self._find_attr(e, a.name)
@@ -510,7 +527,7 @@ class World(object):
         if a.owner is not e: codes.add(NOT_FOUND)
         if codes: return Res.err(codes)
         self._remove_attr(e, a)
-        return Res.ok(a)
+        return Res.ok(a, self.gray)
     def getAttribute(self, e, name):
         f = self._find_attr(e, name)
         return Res.ok(('s', f[0].value if f else ''), 'two attributes share the nodeName' if len(f) > 1 else None)
@@ -588,13 +605,18 @@ class World(object):
         if n.readonly: codes.add(NO_MOD)
         if n.parent is not None and n.parent.readonly: codes.add(NO_MOD)
         if codes: return Res.err(codes)
+        unspec = None
+        if n.parent is not None and n.parent.t == DOC:
+            # only reachable through the Xerces extension "whitespace Text under Document"
+            unspec = 'splitText of a Text child of a Document (Xerces extension)'
+            if n.value[off:].strip(' \t\r\n') != '': return Res.err({HIERARCHY}, unspec)
         new = self.new(n.t, n.doc, value=n.value[off:])
         n.value = n.value[:off]
         if n.parent is not None:
             p = n.parent; i = p.children.index(n)
             p.children.insert(i + 1, new); new.parent = p
         for v in self.listeners: v.text_split(n, new, off)
-        return Res.ok(new)
+        return Res.ok(new, unspec)
 
     # =================================================================================================
     # normalize
@@ -650,13 +672,15 @@ class World(object):
         c = Node(n.t, doc)
         c.name, c.ns, c.local, c.prefix, c.value = n.name, n.ns, n.local, n.prefix, n.value
         c.readonly = readonly or n.t == ER
+        c.cloned = not importing
+        if n.t == EL and not importing: self.captured[c] = list(self.captured.get(n, []))
         if n.t == EL:
             for a in n.attrs:
                 if importing and not a.specified: continue
                 ca = self._clone(a, True, doc, readonly=c.readonly, importing=importing); ca.owner = c
                 ca.specified = a.specified if not importing else True
                 c.attrs.append(ca)
-            if importing: self.add_defaults(c)
+            if importing and n.local is None: self.add_defaults(c)
         if n.t == AT: c.specified = True
         if n.t == ER:
             if importing:
@@ -681,4 +705,7 @@ class World(object):
     def importNode(self, doc, n, deep):
         if n.t in (DOC, DT): return Res.err({NOT_SUPPORTED})
         if n.t in (ENT, NOT): return None
-        return Res.ok(self._clone(n, deep or n.t == AT, doc, importing=True))
+        unspec = None
+        if any(x.t == EL and x.local is not None and self.default_attrs(doc, x.name) for x in (subtree(n) if deep else [n])):
+            unspec = 'import of a namespace-aware element whose type has DTD default attributes in the target document'
+        return Res.ok(self._clone(n, deep or n.t == AT, doc, importing=True), unspec)
